@@ -598,6 +598,7 @@ func summarize(p *Prop, tier string, seed uint64, results []*Result, wall time.D
 		dir := filepath.Join(Home(), "replays", p.ID)
 		os.MkdirAll(dir, 0755)
 		printed := 0
+		lastIdx := -1
 		for _, v := range viols {
 			path := filepath.Join(dir, fmt.Sprintf("case-%d-%s-%d.json", seed, tier, v.idx))
 			rep := map[string]any{
@@ -609,6 +610,10 @@ func summarize(p *Prop, tier string, seed uint64, results []*Result, wall time.D
 			}
 			rb, _ := json.MarshalIndent(rep, "", " ")
 			os.WriteFile(path, rb, 0644)
+			if v.idx == lastIdx {
+				continue
+			}
+			lastIdx = v.idx
 			if printed < 25 {
 				fmt.Printf("VIOLATION property=%s replay=%s\n", p.ID, path)
 				fmt.Printf("  [%s] %s\n", v.v.Sig, firstLines(v.v.Msg, 6))
@@ -637,6 +642,11 @@ func summarize(p *Prop, tier string, seed uint64, results []*Result, wall time.D
 
 func firstLines(s string, n int) string {
 	ls := strings.Split(s, "\n")
+	for i := range ls {
+		if len(ls[i]) > 400 {
+			ls[i] = ls[i][:400] + "..."
+		}
+	}
 	if len(ls) > n {
 		ls = append(ls[:n], "...")
 	}
